@@ -725,12 +725,12 @@ func builtinKeys(i *Interpreter, args []Expr, env *Environment) (interface{}, er
 }
 
 // callCallable invokes a callable (LambdaClosure or Function) with the given arguments.
-func (i *Interpreter) callCallable(fn interface{}, args []interface{}) (interface{}, error) {
+func (i *Interpreter) callCallable(fn interface{}, args []interface{}, env *Environment) (interface{}, error) {
 	switch f := fn.(type) {
 	case *LambdaClosure:
 		return i.callLambdaClosure(f, args)
 	case Function:
-		fnEnv := NewChildEnvironment(NewEnvironment())
+		fnEnv := newCallScope(NewEnvironment(), env)
 		for idx, param := range f.Params {
 			if idx < len(args) {
 				fnEnv.Define(param.Name, args[idx])
@@ -745,7 +745,7 @@ func (i *Interpreter) callCallable(fn interface{}, args []interface{}) (interfac
 		}
 		return result, nil
 	case *Function:
-		return i.callCallable(*f, args)
+		return i.callCallable(*f, args, env)
 	default:
 		return nil, fmt.Errorf("expected a function, got %T", fn)
 	}
@@ -769,7 +769,7 @@ func builtinMap(i *Interpreter, args []Expr, env *Environment) (interface{}, err
 	}
 	result := make([]interface{}, len(arr))
 	for idx, elem := range arr {
-		val, err := i.callCallable(fnArg, []interface{}{elem})
+		val, err := i.callCallable(fnArg, []interface{}{elem}, env)
 		if err != nil {
 			return nil, fmt.Errorf("map() callback error at index %d: %v", idx, err)
 		}
@@ -796,7 +796,7 @@ func builtinFilter(i *Interpreter, args []Expr, env *Environment) (interface{}, 
 	}
 	result := make([]interface{}, 0)
 	for idx, elem := range arr {
-		val, err := i.callCallable(fnArg, []interface{}{elem})
+		val, err := i.callCallable(fnArg, []interface{}{elem}, env)
 		if err != nil {
 			return nil, fmt.Errorf("filter() callback error at index %d: %v", idx, err)
 		}
@@ -828,7 +828,7 @@ func builtinReduce(i *Interpreter, args []Expr, env *Environment) (interface{}, 
 		return nil, err
 	}
 	for idx, elem := range arr {
-		acc, err = i.callCallable(fnArg, []interface{}{acc, elem})
+		acc, err = i.callCallable(fnArg, []interface{}{acc, elem}, env)
 		if err != nil {
 			return nil, fmt.Errorf("reduce() callback error at index %d: %v", idx, err)
 		}
@@ -853,7 +853,7 @@ func builtinFind(i *Interpreter, args []Expr, env *Environment) (interface{}, er
 		return nil, err
 	}
 	for idx, elem := range arr {
-		val, err := i.callCallable(fnArg, []interface{}{elem})
+		val, err := i.callCallable(fnArg, []interface{}{elem}, env)
 		if err != nil {
 			return nil, fmt.Errorf("find() callback error at index %d: %v", idx, err)
 		}
@@ -881,7 +881,7 @@ func builtinSome(i *Interpreter, args []Expr, env *Environment) (interface{}, er
 		return nil, err
 	}
 	for idx, elem := range arr {
-		val, err := i.callCallable(fnArg, []interface{}{elem})
+		val, err := i.callCallable(fnArg, []interface{}{elem}, env)
 		if err != nil {
 			return nil, fmt.Errorf("some() callback error at index %d: %v", idx, err)
 		}
@@ -909,7 +909,7 @@ func builtinEvery(i *Interpreter, args []Expr, env *Environment) (interface{}, e
 		return nil, err
 	}
 	for idx, elem := range arr {
-		val, err := i.callCallable(fnArg, []interface{}{elem})
+		val, err := i.callCallable(fnArg, []interface{}{elem}, env)
 		if err != nil {
 			return nil, fmt.Errorf("every() callback error at index %d: %v", idx, err)
 		}
@@ -945,7 +945,7 @@ func builtinSort(i *Interpreter, args []Expr, env *Environment) (interface{}, er
 			if sortErr != nil {
 				return false
 			}
-			val, err := i.callCallable(fnArg, []interface{}{result[a], result[b]})
+			val, err := i.callCallable(fnArg, []interface{}{result[a], result[b]}, env)
 			if err != nil {
 				sortErr = err
 				return false
